@@ -2,6 +2,8 @@ import SF.Props.C04
 import SF.Props.C13
 import SF.Props.C14
 import SF.Lemmas.Real
+import SF.Lemmas.Rsi
+import SF.Lemmas.MyRsi
 import Mathlib.Data.List.Induction
 /-
   C07 — Bounded indicators stay inside their documented range (exact arithmetic).
@@ -210,6 +212,28 @@ theorem hln_range (N : Nat) (xs : List α) (v : α) (h : Spec.hln N xs = some v)
       have h3 : lo < hi := lt_of_le_of_ne (le_trans h1 h2) (Ne.symm hne')
       simpa using hln_formula_range x lo hi h1 h2 h3
   · simp only [Option.some.injEq] at h; subst h; simp
+
+/-! ### the views themselves (state machines), through their characterisations -/
+/-- every value Rsi ever reports lies in [0, 100] -/
+theorem rsi_view_range (N : Nat) (hN : 0 < N) (xs : List α) (v : α)
+    (h : (rsiCore (α := α) N).outAfter xs = .ok (some v)) : 0 ≤ v ∧ v ≤ 100 := by
+  rw [Rsi.outAfter_eq N hN] at h
+  exact rsi_range N xs v (by simpa using h)
+
+/-- every value MyRSI ever reports lies in [−1, 1] -/
+theorem myrsi_view_range (N : Nat) (hN : 0 < N) (xs : List α) (v : α)
+    (h : (myRsiCore (α := α) N).outAfter xs = .ok (some v)) : -1 ≤ v ∧ v ≤ 1 := by
+  rw [MyRsi.outAfter_eq N hN] at h
+  simp only [Spec.myRsi] at h
+  split at h
+  · simp at h
+  · simp only [Except.ok.injEq, Option.some.injEq] at h; subst h; exact myRsiHold_range N xs
+
+/-- every value HLNormalizer ever reports lies in [−1, 1] -/
+theorem hln_view_range (N : Nat) (hN : 0 < N) (xs : List α) (v : α)
+    (h : (hlnCore (α := α) N).outAfter xs = .ok (some v)) : -1 ≤ v ∧ v ≤ 1 := by
+  rw [C02.hln_eq N hN] at h
+  exact hln_range N xs v (by simpa using h)
 
 /-! ### K2: PFE is not confined to [−1, 1] -/
 /-- on a constant window the ratio fed to PFE's moving average is N / (N − 2) (so 5/3 for N = 5): numerator
